@@ -278,6 +278,7 @@ func (f *DefaultFanController) RunInitializationSequence() (err error) {
 	// the whole analysis (pwm map sweep and rpm curve measurement) of a fan
 	// must not overlap with the analysis of another fan
 	if !configuration.CurrentConfig.RunFanInitializationInParallel {
+		simhook.BeforeLock(&InitializationSequenceMutex)
 		InitializationSequenceMutex.Lock()
 		defer InitializationSequenceMutex.Unlock()
 	}
